@@ -32,7 +32,7 @@ var c12Ops = []string{"insert", "insert", "update", "delete", "delete", "deletet
 
 func genC12(t *rapid.T, tier string) C12Case {
 	c := C12Case{Cfg: core.GenConfig(t, tier, core.GenOpts{
-		Caches: []string{"none"}, Vals: []string{core.VInt, core.VBytes},
+		Caches: []string{"none", "none", "none", "big", "tiny1"}, Vals: []string{core.VInt, core.VBytes},
 		Keys:       []string{core.KLK, core.KLK, core.KLK, core.KInt, core.KString, core.KStruct, core.KStruct, core.KUint64, core.KBytes},
 		Marshalers: []string{"json"},
 		BigOneIn:   40,
@@ -95,6 +95,14 @@ var errInjectedMarshal = errors.New("injected marshal fault")
 func c12Build(c C12Case) (*c12Env, bool) {
 	e := &c12Env{load: &faultCounter{}, cmp: &faultCounter{}, marsh: &faultCounter{}}
 	w := core.NewWorld(c.Cfg)
+	// re-opened trees read through a cold cache of their own (if the configuration has one), so that loads really happen
+	var cold mast.NodeCache
+	coldCache := func() mast.NodeCache {
+		if cold == nil && c.Cfg.Cache != "none" && c.Cfg.Cache != "" {
+			cold, _ = core.MakeCache(c.Cfg.Cache)
+		}
+		return cold
+	}
 	e.w = w
 	w.WrapMarshal = func(base func(interface{}) ([]byte, error)) func(interface{}) ([]byte, error) {
 		return func(x interface{}) ([]byte, error) {
@@ -136,7 +144,7 @@ func c12Build(c C12Case) (*c12Env, bool) {
 		if err != nil {
 			return nil, false
 		}
-		lt, err := w.Load(sr, nil, nil, false)
+		lt, err := w.Load(sr, nil, coldCache(), false)
 		if err != nil {
 			return nil, false
 		}
@@ -163,7 +171,7 @@ func c12Build(c C12Case) (*c12Env, bool) {
 		if err != nil {
 			return nil, false
 		}
-		if e.other, err = w.Load(sr, nil, nil, false); err != nil {
+		if e.other, err = w.Load(sr, nil, coldCache(), false); err != nil {
 			return nil, false
 		}
 	}
@@ -503,7 +511,7 @@ func init() {
 	run.Register(run.Prop[C12Case]{
 		ID:    "C12",
 		Level: "fault_enumeration",
-		Rule: "case = configuration (no cache, so loads really happen) + tree recipe + residency (in memory / reloaded / reloaded with a dirty region) + one operation of {Insert new, update, Delete, Get, Iter, SeekIter, DiffIter, DiffLinks, Clone, cursor Min/Max/Ceil/Ceil+Forward/Ceil+Backward} with a generated key. A fault-free dry run on an identically rebuilt tree counts the Load, KeyCompare and Marshal calls the operation makes; then EVERY single position of each class is enumerated (KeyCompare and Marshal sequences longer than 40: every position up to 40, every 3rd up to 160, every 17th beyond, and the last four), plus generated pairs, rebuilding the tree for each. Oracle: if the call returns an error then, with faults cleared, Size, Height and the full contents equal the pre-call model, and the same call retried succeeds with the dry run's result and the normal post-state. " +
+		Rule: "case = configuration (no cache, or a cold cache of the re-opened tree's own - big or one-slot - so loads really happen) + tree recipe + residency (in memory / reloaded / reloaded with a dirty region) + one operation of {Insert new, update, Delete, Get, Iter, SeekIter, DiffIter, DiffLinks, Clone, cursor Min/Max/Ceil/Ceil+Forward/Ceil+Backward} with a generated key. A fault-free dry run on an identically rebuilt tree counts the Load, KeyCompare and Marshal calls the operation makes; then EVERY single position of each class is enumerated (KeyCompare and Marshal sequences longer than 40: every position up to 40, every 3rd up to 160, every 17th beyond, and the last four), plus generated pairs, rebuilding the tree for each. Oracle: if the call returns an error then, with faults cleared, Size, Height and the full contents equal the pre-call model, and the same call retried succeeds with the dry run's result and the normal post-state. " +
 			"Non-trivial = an erroring fault position >= 2 in a mutating operation on a tree with a dirty region (i.e. not a trivially early abort); distinct by case hash",
 		Assumptions: []string{"a call that returns nil although a fault fired, and a panic under fault, are outside the statement: counted in the evidence, not judged", "KeyCompare is wrapped around mast.DefaultKeyCompare built from the configured (fault-injecting) marshaler, as LoadMast builds it"},
 		Gen:         genC12,
